@@ -49,6 +49,10 @@ CHECKS = {
          "exhaustive small-scope enumeration (all strings over {CR,LF,x} up to length L x all chunkings) + seeded random long strings on buffer edges, differential against a 10-line reference canonicalizer and an independently computed SHA-256 signature digest",
          "exploration with an exhaustively enumerated scope: every string of length <=8 (thorough <=10) over the 3-class alphabet under every source/write chunking and three consumer patterns for NormalizedReader, NormalizingHasher (observed via recording signer) and normalize_lines (observed via the cleartext callback); long strings with patterns on 512/1024/8192 edges; builder and message-reader digests; signature invariance/non-invariance under all single-symbol edits; Utf8-mode CRLF check accept/reject under all chunkings",
          "reference canon() and the RustCrypto sha2 digest are trusted; the three-class abstraction is justified by the code branching only on CR, LF, other"),
+ "C15": ("DESIGN.md §4 C15",
+         "exhaustive enumeration of decision tables whose expected outcomes are derived from the statement, over artifacts produced by the reference (R-crypto ESKs and containers incl. SED, GnuPG-AEAD, SKESK v5; signatures assembled with a correct digest and a valid signature value; certificates re-assembled by the own framer)",
+         "exploration with exhaustively enumerated tables: 5 ESK kinds x 4 containers x 4 option sets x {with, without aligned decoy}; 3 session-key kinds x 4 containers x 4 option sets; key version x signature version (make / accept via Signature::verify, Message::verify, verify_nested); 25 certificate variants (intact, locked, mixed-version secret and public subkey packets, signing subkey with/without back signature, swapped binding, substituted user id) judged through secret path, public path, derived public key, binary/armored/auto-detect import; OPS vs signature mismatches; all unassigned subpacket ids 0..127 x critical x v4/v6; issuer-fingerprint version",
+         "v4 primary with v6 subkey has no verdict fixed by the statement (only path agreement is required); OPS issuer vs signature issuer is not asserted"),
  "C16": ("DESIGN.md §4 C16",
          "grammar-based generated-input search: texts over dash/armor-boundary/whitespace/UTF-8 tokens signed through every cleartext API; oracles: reference RFC 9580 7.2 signed form, independent splitter of the emitted document (unspoofable framing), from_string round trip, re-emission stability, and a metamorphic edit rule (an edit of the text section verifies iff the reference signed form is unchanged)",
          "exploration: ~12k (thorough 300k) texts of 0..8 lines x {LF, CRLF} x final newline, tokens incl. '-', '- ', '-----BEGIN PGP SIGNATURE-----', 'Hash: SHA256', trailing SP/TAB, NBSP, U+3000, VT, FF, lone CR inside / at the end; sign/new/new_many with 1..2 signers over all zoo signing algorithms and their hash algorithms",
